@@ -46,12 +46,15 @@ def plainChain (v : Nat) : Nat → Nat → List Nat → List Block
   | _, _, [] => []
   | n, p, h :: hs => plainBlock v n h p :: plainChain v (n + 1) h hs
 
+/-- header of block `i` of the plain chain with hashes `hs` (its parent is element `i` of `0 :: hs`) -/
+def plainHeader (v : Nat) (hs : List Nat) (i : Nat) : Header :=
+  ⟨hs.getD i 0, (0 :: hs).getD i 0, v, 0, 0, Root.zero⟩
+
 def bulkNode (cfg : Cfg) (v : Nat) (hs : List Nat) : Node :=
   let n := hs.length
   let idx := List.range n
-  let parents := 0 :: hs
   { height := if n = 0 then none else some (n - 1),
-    headers := (hs.zip parents).zipIdx.map (fun e => (e.2, (⟨e.1.1, e.1.2, v, 0, 0, Root.zero⟩ : Header))),
+    headers := idx.map (fun i => (i, plainHeader v hs i)),
     numByHash := Map.setAll [] hs.zipIdx,
     blockTxs := idx.map (fun i => (i, [])),
     txLoc := [], l1msg := [],
